@@ -29,6 +29,6 @@ PY
     rm -rf "$W"
   ) &
   # at most 3 evaluations run at a time (seedq), but do not fork everything at once
-  while [ "$(jobs -r | wc -l)" -ge 4 ]; do sleep 5; done
+  sleep 1
 done
 wait
